@@ -399,6 +399,126 @@ def run_infinite(case, npz):
     return out
 
 
+def with_range(H, tag, how='ctor'):
+    """the same W tensors with the documented meta-data `max_range` known (as computed from the terms), unknown (None,
+    an MPO given by its W tensors) or np.inf (a valid upper bound)"""
+    from tenpy.networks.mpo import MPO
+    if tag == 'known':
+        return H
+    mr = None if tag == 'none' else np.inf
+    if how == 'wflat' and H.sites[0].leg.chinfo.qnumber == 0:
+        Wflat = [H.get_W(i, copy=True).itranspose(['p', 'p*', 'wL', 'wR']).to_ndarray() for i in range(H.L)]
+        return MPO.from_Wflat(H.sites, Wflat, H.bc, IdL=list(H.IdL), IdR=list(H.IdR), max_range=mr, unit_cell_width=H.unit_cell_width)
+    return MPO(H.sites, [H.get_W(i, copy=True) for i in range(H.L)], H.bc, list(H.IdL), list(H.IdR), mr,
+               mps_unit_cell_width=H.unit_cell_width)
+
+
+def run_results(case, npz):
+    """RESULTS of the MPO algebra (sums in both orders, daggers, plus_identity, sums of sums) of operands whose `max_range` is
+    known / None / inf in every combination, finite and infinite: the meta-data of every result and every routine that reads
+    it (is_equal, is_hermitian, to_TermList, expectation values, variance), raw answers only"""
+    from tenpy.networks.mps import MPS
+    rec = Rec()
+    out = rec.out
+    kind = case['site']['type']
+    L = case['L']
+    bc = case['bc']
+    finite = bc == 'finite'
+    N = L if finite else L * case['nwin']
+    sites = [make_site(case['site'])] * L
+    rng = np.random.default_rng(case['seed'])
+    np.random.seed(case['seed'] % (2 ** 31))
+    out['L'], out['N'] = L, N
+    out['dims'] = [sites[0].dim] * N
+    out['needs_JW'] = {op: bool(sites[0].op_needs_JW(op)) for op in sites[0].opnames}
+    for op in sites[0].opnames:
+        rec.mats['op/' + op] = sites[0].get_op(op).to_ndarray()
+    opd = {}
+    out['operand_max_range'] = {}
+    for name, spec in case['operands'].items():
+        H = build_from_terms(sites, spec['terms'], bc)
+        out['operand_max_range'][name] = [None if H.max_range is None else float(H.max_range), spec['range']]
+        opd[name] = with_range(H, spec['range'], spec.get('how', 'ctor'))
+    # state
+    if finite:
+        st = case['state']
+        psi = random_state(sites, st, rng)
+        rec.mats['psi'] = dense_state(psi)
+    else:
+        vecs = []
+        psi_sites = [sites[0]] * case.get('psi_L', L)
+        for s_ in psi_sites:
+            if case['site'].get('conserve') is None:
+                v = rng.normal(size=s_.dim) + 1j * rng.normal(size=s_.dim)
+            else:
+                v = np.zeros(s_.dim, dtype=complex)
+                v[rng.integers(s_.dim)] = 1.
+            vecs.append(v / np.linalg.norm(v))
+        out['state'] = [[cnum(x) for x in v] for v in vecs]
+        if case['site'].get('conserve') is None:
+            psi = MPS.from_product_state(psi_sites, vecs, 'infinite', dtype=complex, permute=False)
+        else:
+            psi = MPS.from_product_state(psi_sites, [int(np.argmax(np.abs(v))) for v in vecs], 'infinite', dtype=complex, permute=False)
+    res = {}
+    out['results'] = {}
+
+    def evaluate(expr):
+        if isinstance(expr, str):
+            return opd[expr]
+        op = expr[0]
+        if op == 'add':
+            return evaluate(expr[1]) + evaluate(expr[2])
+        if op == 'dagger':
+            return evaluate(expr[1]).dagger()
+        if op == 'plus_identity':
+            return evaluate(expr[1]).plus_identity(cplx(expr[2]), cplx(expr[3]))
+        raise ValueError(op)
+    for name, expr in case['results'].items():
+        o = out['results'][name] = {}
+
+        def make(name=name, expr=expr, o=o):
+            R = evaluate(expr)
+            R.test_sanity()
+            res[name] = R
+            o['max_range'] = None if R.max_range is None else ('inf' if R.max_range == np.inf else float(R.max_range))
+            o['IdR_negative'] = bool(any(x is not None and x < 0 for x in R.IdR))
+            rec.mats['R/' + name] = contract_mpo(R, N)
+        rec.run('make:' + name, make)
+        if name not in res:
+            continue
+        R = res[name]
+        rec.run('is_hermitian:' + name, lambda R=R, o=o: o.__setitem__('is_hermitian', bool(R.is_hermitian())))
+
+        def ttl(R=R, o=o):
+            conv = lambda tl: [[[[op, int(i)] for op, i in t], cnum(s_)] for t, s_ in zip(tl.terms, tl.strength)]
+            o['to_TermList_raw'] = conv(R.to_TermList(BASIS[kind], ignore=['Id']))
+            # an independent MPO with the same tensors and meta-data (MPO.copy() is shallow: shares the marker lists)
+            from tenpy.networks.mpo import MPO
+            R2 = MPO(R.sites, [R.get_W(i, copy=True) for i in range(R.L)], R.bc, list(R.IdL), list(R.IdR), R.max_range,
+                     R.explicit_plus_hc, R.unit_cell_width)
+            R2.sort_legcharges()            # (brings the IdL / IdR markers to non-negative indices)
+            o['to_TermList'] = conv(R2.to_TermList(BASIS[kind], ignore=['Id']))
+            o['max_range_sorted'] = None if R2.max_range is None else ('inf' if R2.max_range == np.inf else float(R2.max_range))
+        rec.run('to_TermList:' + name, ttl)
+        rec.run('expectation_value:' + name, lambda R=R, o=o: o.__setitem__('expectation_value', cnum(R.expectation_value(psi))))
+        if finite:
+            rec.run('variance:' + name, lambda R=R, o=o: o.__setitem__('variance', cnum(R.variance(psi))))
+        else:
+            rec.run('expectation_value_mr:' + name,
+                    lambda R=R, o=o: o.__setitem__('expectation_value_mr', cnum(R.expectation_value(psi, max_range=case['ev_max_range']))))
+            rec.run('expectation_value_TM:' + name, lambda R=R, o=o: o.__setitem__('expectation_value_TM', cnum(R.expectation_value_TM(psi))))
+            rec.run('expectation_value_power:' + name,
+                    lambda R=R, o=o: o.__setitem__('expectation_value_power', cnum(R.expectation_value_power(psi))))
+    out['is_equal'] = {}
+    for a, b in case['compare']:
+        if a in res and b in res:
+            rec.run('is_equal:%s:%s' % (a, b), lambda a=a, b=b: out['is_equal'].__setitem__(a + ':' + b, bool(res[a].is_equal(res[b]))))
+    np.savez(npz, **rec.mats)
+    out['errors'] = rec.errors
+    out['npz'] = npz
+    return out
+
+
 def run_propagator(case, npz):
     from tenpy.networks.mpo import MPOGraph
     rec = Rec()
@@ -512,6 +632,8 @@ def main():
                 out.append(run_infinite(case, npz))
             elif case['kind'] == 'ui':
                 out.append(run_ui(case, npz))
+            elif case['kind'] == 'results':
+                out.append(run_results(case, npz))
             else:
                 out.append(run_propagator(case, npz))
         except Exception:
